@@ -50,6 +50,10 @@ def main():
     if not a.record:
         missing = sorted(expected - proved_now - {u["obligation"] for u in run.undecided})
         missing = [m for m in missing if ".raises." not in m or ".exactly_when" in m]
+        # obligations of a function for which a violation is already reported are not "vanished"
+        reported = {f["contract"] for f in run.functions
+                    if any(v[0] == f["contract"] + ".*" or v[0].startswith(f["contract"] + ".") for v in run.violations)}
+        missing = [m for m in missing if not any(m.startswith(c + ".") for c in reported)]
         fun_err = [f for f in run.functions if f["error"]]
         if missing and not fun_err:
             run.errors.append(f"obligations recorded for {a.pid} are no longer generated: {missing[:5]}")
